@@ -76,6 +76,8 @@ def rule_defn(P) -> RuleResult:
     if len(seen) < 15:
         raise AnalysisError(f'only {len(seen)} definitional functions found')
     _reference_cases(P, res, reg)
+    _impl_definition_cases(P, res, reg)
+    _interval_cases(P, res, reg)
     return res
 
 
@@ -324,3 +326,208 @@ def rule_accttypes(P) -> RuleResult:
     res.exhaustive = True
     _account_types_cases(P, res, ('account_sortkey',))
     return res
+
+
+# ----------------------------------------------------------------------
+# R-DEFN, second part: definitions with conditions, keyed by implementation (several overloads of one name differ)
+
+# the definition of each implementation as a function of p0, p1, ... (and `context` for functions that receive the row context);
+# compared path by path: the same value under the same conditions, however the conditions are spelled or nested
+DEFINITIONS_BY_IMPL = {
+    'quarter': "def _d(p0):\n    return '{:04d}-Q{:1d}'.format(p0.year, (p0.month - 1) // 3 + 1)\n",
+    'weekday_': "def _d(p0):\n    return p0.strftime('%a')\n",
+    'today': "def _d():\n    return datetime.date.today()\n",
+    'bool_': "def _d(p0):\n    return bool(p0)\n",
+    'position_units': "def _d(p0):\n    return convert.get_units(p0)\n",
+    'inventory_units': "def _d(p0):\n    return p0.reduce(convert.get_units)\n",
+    'position_cost': "def _d(p0):\n    return convert.get_cost(p0)\n",
+    'inventory_cost': "def _d(p0):\n    return p0.reduce(convert.get_cost)\n",
+    'convert_amount': "def _d(context, p0, p1, p2=None):\n    return convert.convert_amount(p0, p1, context.tables['prices'].price_map, p2)\n",
+    'convert_position': "def _d(context, p0, p1, p2=None):\n    return convert.convert_position(p0, p1, context.tables['prices'].price_map, p2)\n",
+    'convert_inventory': "def _d(context, p0, p1, p2=None):\n    return p0.reduce(convert.convert_position, p1, context.tables['prices'].price_map, p2)\n",
+    'position_value': "def _d(context, p0, p1=None):\n    return convert.get_value(p0, context.tables['prices'].price_map, p1)\n",
+    'inventory_value': "def _d(context, p0, p1=None):\n    return p0.reduce(convert.get_value, context.tables['prices'].price_map, p1)\n",
+    'getprice': "def _d(context, p0, p1, p2=None):\n    return prices.get_price(context.tables['prices'].price_map, (p0.upper(), p1.upper()), p2)[1]\n",
+    'filter_currency_position': "def _d(p0, p1):\n    if p0.units.currency == p1:\n        return p0\n    return None\n",
+    'possign': "def _d(context, p0, p1):\n    if get_account_sign(p1, context.tables['accounts'].types) >= 0:\n        return p0\n    return -p0\n",
+    'parse_date': "def _d(p0, p1=None):\n    if p1 is None:\n        return dateutil.parser.parse(p0).date()\n    return datetime.datetime.strptime(p0, p1).date()\n",
+}
+
+_FLIP = {'!=': '==', 'is not': 'is', 'not in': 'in', '<': '>=', '>': '<='}
+
+
+def _norm_decision(t, o, module):
+    c = _resolve_names(canon(t), module)
+    # canonical comparisons: ('cmp', op, a, b) in whatever tuple form canon gives; flip the negative spellings
+    if isinstance(c, tuple) and len(c) == 4 and c[0] == 'cmp' and c[1] in _FLIP:
+        c, o = ('cmp', _FLIP[c[1]], c[2], c[3]), not o
+    return (repr(c), bool(o))
+
+
+def _pathset(P, fn, env, module):
+    out = set()
+    for p in Engine(P).paths(fn, dict(env)):
+        if p.outcome == 'raise':
+            continue
+        conds = frozenset(_norm_decision(t, o, module) for t, o in p.decisions)
+        out.add((conds, repr(_resolve_names(canon(p.value), module))))
+    return out
+
+
+def _arg(i):
+    # an argument of undecided truth (a bare symbol stands for an object and is true)
+    return T('attr', (Sym('ARGUMENTS'), f'p{i}'))
+
+
+def _impl_definition_cases(P, res, reg):
+    seen = set()
+    for f in reg.funcs:
+        if f.kind != 'function' or f.impl is None or f.impl.name not in DEFINITIONS_BY_IMPL or f.impl.fq in seen:
+            continue
+        seen.add(f.impl.fq)
+        fi = f.impl
+        off = 1 if (f.pass_context or f.pass_row) else 0
+        params = fi.params[off:]
+        dnode = ast.parse(DEFINITIONS_BY_IMPL[fi.name]).body[0]
+        dparams = [a.arg for a in dnode.args.args]
+        if len(dparams) != len(fi.params):
+            res.fail(f'function:{f.label}', 'defn:changed', f'{fi.name} takes {fi.params}; its definition on record takes {dparams}', loc(fi))
+            continue
+        CTXT = Sym('CONTEXT')
+        env = {p: _arg(i) for i, p in enumerate(params)}
+        for p in fi.params[:off]:
+            env[p] = CTXT
+        denv = {p: (CTXT if p == 'context' else _arg(int(p[1:]))) for p in dparams}
+        denv['__fi__'] = fi
+        want = _pathset(P, dnode, denv, fi.module)
+        got = _pathset(P, fi, env, fi.module)
+        if got == want:
+            res.ok({'function': f.label, 'implementation': fi.name, 'paths': len(want), 'definition': ' '.join(DEFINITIONS_BY_IMPL[fi.name].split()[2:])[:120]})
+        else:
+            d = sorted(got - want) or sorted(want - got)
+            conds, val = d[0]
+            res.fail(f'function:{f.label}', 'defn:changed', f'{fi.name}({", ".join(params)}) is defined as `{" ".join(DEFINITIONS_BY_IMPL[fi.name].split())}`; '
+                     f'the implementation {"returns" if got - want else "no longer returns"} `{val[:120]}` when '
+                     f'{" and ".join(c[:60] + " is " + str(o) for c, o in sorted(conds)) or "always"}'[:700], loc(fi))
+    if len(seen) < 12:
+        raise AnalysisError(f'only {len(seen)} implementations with a definition on record found')
+    # safediv: zero divisor -> the Decimal zero, never a division; otherwise the quotient
+    sd = [f for f in reg.funcs if f.kind == 'function' and f.name == 'safediv' and f.impl is not None]
+    if not sd:
+        raise AnalysisError('anchor vanished: safediv')
+    fi = sd[0].impl
+    from .evalnodes import _zero_oracle
+    X, Y = _arg(0), _arg(1)
+    problems = []
+    for zero in (True, False):
+        for p in Engine(P, oracle=_zero_oracle(Y, zero)).paths(fi, {fi.params[0]: X, fi.params[1]: Y}):
+            divs = [e for e in p.events if e[0] == 'div']
+            v = _resolve_names(canon(p.value), fi.module)
+            if zero and (divs or p.outcome != 'return' or repr(v) not in ("('global', 'beancount.core.number.ZERO')", "('call', 'decimal.Decimal', (0,), ())",
+                                                                          "('call', 'decimal.Decimal', ('0',), ())", "('call', 'decimal.Decimal', (), ())")):
+                problems.append(f'with a zero divisor it {"divides" if divs else "returns `" + show(p.value)[:40] + "`"}: safediv(x, 0) is the decimal zero')
+            if not zero and (p.outcome != 'return' or p.value != T('bin', ('/', X, Y))):
+                problems.append(f'with a non-zero divisor it returns `{show(p.value)[:60]}`: safediv(x, y) is x / y')
+    if problems:
+        res.fail('function:safediv', 'defn:changed', 'safediv: ' + '; '.join(problems[:2]), loc(fi))
+    else:
+        res.ok({'function': 'safediv', 'zero_divisor': 'Decimal zero, no division evaluated', 'otherwise': 'x / y'})
+
+
+INTERVAL_UNITS = {'day': ('days', 1), 'week': ('weeks', 1), 'month': ('months', 1), 'year': ('years', 1),
+                  'decade': ('years', 10), 'century': ('years', 100), 'millennium': ('years', 1000)}
+
+
+def _interval_cases(P, res, reg):
+    """interval('N unit[s]') on terms: for every unit word the pattern admits, the result is relativedelta(<that calendar unit>=N [x the
+    multiple]); a string the pattern does not match gives NULL; N is the integer written."""
+    import re._parser as sre
+    fs = [f for f in reg.funcs if f.kind == 'function' and f.name == 'interval' and f.impl is not None]
+    if not fs:
+        raise AnalysisError('anchor vanished: interval()')
+    fi = fs[0].impl
+    X = Sym('TEXT')
+    patterns = []
+
+    def run(unit):
+        MATCH, NUM = Sym('MATCH'), Sym('NUMBER_TEXT')
+
+        def on_call(fn, fv, rc, a, k, ex, nd):
+            d = str(fn)
+            if d.split('.')[0] == 're' and d.split('.')[-1] in ('fullmatch', 'match', 'search') and len(a) >= 2 and isinstance(a[0], str):
+                patterns.append((d.split('.')[-1], a[0], a[1]))
+                return MATCH if unit is not None else None
+            if rc == MATCH and d.split('.')[-1] == 'group' and len(a) == 1:
+                return {1: NUM, 2: unit}.get(a[0], T('call', (d, tuple(a), ())))
+            if rc == MATCH and d.split('.')[-1] == 'groups' and not a:
+                return T('tuple', (NUM, unit))
+            return NotImplemented
+
+        def on_item(base, i, ex):
+            if base == MATCH and i in (1, 2):
+                return {1: NUM, 2: unit}[i]
+            return NotImplemented
+        return NUM, [p for p in Engine(P, on_call=on_call, on_item=on_item).paths(fi, {fi.params[0]: X})]
+    _, ps = run(None)
+    if not patterns:
+        raise AnalysisError(f'{fi.fq}: the pattern of the interval syntax was not found on terms')
+    how, pattern, subject = patterns[0]
+    if subject != X:
+        res.fail('function:interval', 'defn:changed', f'interval() matches its pattern against `{show(subject)}`, not against its argument', loc(fi))
+        return
+    if any(p.outcome != 'return' or p.value is not None for p in ps):
+        res.fail('function:interval', 'defn:changed', 'interval() of a string that is not `N unit` must be NULL', loc(fi))
+        return
+    # the unit words the pattern admits: the literal alternatives of its second group
+    units = None
+    try:
+        parsed = sre.parse(pattern)
+        groups = [x for x in parsed if str(x[0]) == 'SUBPATTERN']
+        if len(groups) >= 2:
+            body = groups[1][1][3]
+            alts = body[0][1][1] if len(body) == 1 and str(body[0][0]) == 'BRANCH' else [body]
+            units = [''.join(chr(c[1]) for c in alt) for alt in alts if all(str(c[0]) == 'LITERAL' for c in alt)]
+            if len(units) != len(alts):
+                units = None
+    except Exception:   # noqa: BLE001
+        units = None
+    if not units:
+        raise AnalysisError(f'{fi.fq}: unit alternatives of the pattern {pattern!r} not understood')
+    # the whole argument is the interval (fullmatch, or match / search anchored at both ends), sign and digits, blank(s), unit, optional s
+    import re as _re
+    rx = _re.compile(pattern)
+    match = {'fullmatch': rx.fullmatch, 'match': rx.match, 'search': rx.search}[how]
+    for u in units:
+        for text, want in ((f'3 {u}', True), (f'-3 {u}s', True), (f'+12 {u}', True), (f'3  {u}', True), (f'3{u}', False), (u, False),
+                           (f'3 {u} x', False), (f'x 3 {u}', False), (f'3.5 {u}', False), (f'3 {u}ss', False)):
+            m = match(text)
+            if bool(m) != want or (m and (m.group(1) != text.split()[0] or m.group(2) != u)):
+                res.fail('function:interval', 'defn:changed', f'the interval syntax is `[+-]digits blank(s) unit[s]` over the whole argument: '
+                         f'{text!r} is {"rejected" if want else "accepted"} by the pattern {pattern!r} ({how})', loc(fi))
+                return
+    for u in units:
+        if u not in INTERVAL_UNITS:
+            res.fail('function:interval', 'defn:changed', f'the pattern admits the unit `{u}`, which is not a calendar unit of interval()', loc(fi))
+            continue
+        kw, mult = INTERVAL_UNITS[u]
+        NUM, ps = run(u)
+        n = T('call', ('int', (NUM,), ()))
+        want = {repr(canon(T('call', ('relativedelta', (), ((kw, n if mult == 1 else T('bin', ('*', n, mult))),))))),
+                repr(canon(T('call', ('relativedelta', (), ((kw, n if mult == 1 else T('bin', ('*', mult, n))),)))))}
+        got = {repr(_strip_module(canon(p.value))) for p in ps if p.outcome == 'return'}
+        if not got or not got <= want:
+            res.fail('function:interval', 'defn:changed', f"interval('N {u}') is relativedelta({kw}=N{'' if mult == 1 else ' * ' + str(mult)}) with N the "
+                     f'integer written; the implementation gives {sorted(got)[:2] or "nothing"}'[:500], loc(fi))
+        else:
+            res.ok({'function': 'interval', 'unit': u, 'value': f'relativedelta({kw}=N{"" if mult == 1 else " * " + str(mult)})'})
+    if not {'day', 'month', 'year'} <= set(units):
+        res.fail('function:interval', 'defn:changed', f'interval() must accept days, months and years; the pattern admits {units}', loc(fi))
+
+
+def _strip_module(c):
+    """`dateutil.relativedelta.relativedelta(...)` and `relativedelta(...)` are the same callee."""
+    if isinstance(c, tuple):
+        if len(c) == 4 and c[0] == 'call' and isinstance(c[1], str):
+            return ('call', c[1].split('.')[-1], _strip_module(c[2]), _strip_module(c[3]))
+        return tuple(_strip_module(x) for x in c)
+    return c
